@@ -499,11 +499,6 @@ impl Machine {
                 if g.get_export(name) != Some(self.nodes[&n]) {
                     bad.push(format!("get_export({name}) disagrees with the exports map"));
                 }
-                // an export name is the same name when written in another case (GraphAbs.SameName)
-                let other = if name.chars().any(|c| c.is_ascii_lowercase()) { name.to_ascii_uppercase() } else { name.to_ascii_lowercase() };
-                if other != name && g.get_export(&other) != Some(self.nodes[&n]) {
-                    bad.push(format!("get_export({other}) does not find the export `{name}`"));
-                }
             }
         }
         for n in proj["nodes"].as_array().unwrap() {
